@@ -71,7 +71,7 @@ func c20Run(ctx *core.Ctx) {
 		var rec func(cur []string)
 		rec = func(cur []string) {
 			if len(cur) > 0 {
-				for _, tr := range []string{"bdat", "lmtpdata", "lmtpbdat", "lmtpplainbdat"} {
+				for _, tr := range []string{"bdat", "lmtpdata", "lmtpbdat", "lmtpplainbdat", "bdatlocked"} {
 					emit(c20Case{Kind: "order", Order: append([]string{}, cur...), Transfer: tr})
 					if ctx.Thorough() && len(cur) <= 3 {
 						for rep := 1; rep <= 4; rep++ {
@@ -122,7 +122,7 @@ func c20Run(ctx *core.Ctx) {
 			emit(c20Case{Kind: "accept", Accept: append([]string{}, parts...), Direct: true}) // end with Shutdown instead of Close
 		})
 		// connections that are still in their (implicit) TLS handshake, or idle, when Close / Shutdown fires
-		for _, st := range []string{"tls-stalled", "tls-half", "plain-idle", "plain-greeted", "starttls-stalled", "starttls-half", "just-accepted"} {
+		for _, st := range []string{"tls-stalled", "tls-half", "plain-idle", "plain-greeted", "starttls-stalled", "starttls-half", "just-accepted", "accepted-at-close"} {
 			for _, how := range []string{"Close", "Shutdown"} {
 				nrep := 3
 				if st == "just-accepted" {
@@ -262,11 +262,21 @@ func c20Blocked() (lines []string, allBlocked bool) {
 }
 
 func c20Order(ctx *core.Ctx, c c20Case) {
+	if gaveUp("c20order|"+c.Transfer) || (gaveUp("c20order-close") && strings.Contains(strings.Join(c.Order, ""), "C")) {
+		ctx.Add("cases_skipped_after_an_established_hang", 1)
+		return
+	}
 	ctx.Eval(fmt.Sprintf("order|%v|%s|%d", c.Order, c.Transfer, c.Seed), true)
 	mode := modeSMTP
-	if c.Transfer != "bdat" {
+	if c.Transfer != "bdat" && c.Transfer != "bdatlocked" {
 		mode = modeLMTPRcpt
 	}
+	// "bdatlocked": the backend serialises its callbacks per session with a mutex of its own (Data
+	// holds it while it runs, Reset takes it) and its Data is not held back by the harness: it
+	// simply waits for more of the message. Ending the transfer must wake Data up before (or
+	// without) waiting for Reset.
+	locked := c.Transfer == "bdatlocked"
+	var smu sync.Mutex
 	if c.Transfer == "lmtpplainbdat" {
 		mode = modeLMTP // LMTP server over a plain Session: the server itself fans the result out per recipient
 	}
@@ -276,9 +286,15 @@ func c20Order(ctx *core.Ctx, c c20Case) {
 	var nData atomic.Int32
 	rig.BE.H.Data = func(sess int, r *rec.Reader, st smtp.StatusCollector) error {
 		k := nData.Add(1)
+		if locked {
+			smu.Lock()
+			defer smu.Unlock()
+		}
 		if k == 1 {
 			r.ReadN(4, 4)
-			gate.Wait("d1")
+			if !locked {
+				gate.Wait("d1")
+			}
 		}
 		err := r.ReadAll(32)
 		if st != nil && k == 1 {
@@ -292,6 +308,12 @@ func c20Order(ctx *core.Ctx, c c20Case) {
 		}
 		return nil
 	}
+	if locked {
+		rig.BE.H.Reset = func(int) {
+			smu.Lock()
+			smu.Unlock() //nolint:staticcheck // the point is to wait for a running Data
+		}
+	}
 	p := rig.Dial()
 	pre := mode.hello() + "\r\nMAIL FROM:<s1@x.test>\r\nRCPT TO:<r1@x.test>\r\n"
 	p.SendStr(pre)
@@ -303,7 +325,7 @@ func c20Order(ctx *core.Ctx, c c20Case) {
 		return
 	}
 	switch c.Transfer {
-	case "bdat", "lmtpbdat", "lmtpplainbdat":
+	case "bdat", "lmtpbdat", "lmtpplainbdat", "bdatlocked":
 		p.SendStr("BDAT 4\r\n")
 		p.SendStr("park")
 		p.ReadReply()
@@ -312,7 +334,14 @@ func c20Order(ctx *core.Ctx, c c20Case) {
 		p.ReadReply()
 		p.SendStr("park of the body\r\n.\r\n")
 	}
-	gate.WaitParked("d1")
+	if locked {
+		// wait until Data has begun (it then holds the backend's mutex and waits for input)
+		for i := 0; i < 2000 && len(eventsOf(rig.Log.Events(), "Data", "b")) == 0; i++ {
+			time.Sleep(time.Millisecond)
+		}
+	} else {
+		gate.WaitParked("d1")
+	}
 	var shutdownDone chan error
 	cancelShutdown := func() {}
 	closed := false
@@ -332,6 +361,7 @@ func c20Order(ctx *core.Ctx, c c20Case) {
 			p.Close()
 		case "C":
 			if _, ret := rig.CloseBounded(); !ret {
+				giveUp("c20order-close")
 				lines, _ := c20Blocked()
 				gate.OpenAll()
 				p.Close()
@@ -387,6 +417,7 @@ func c20Order(ctx *core.Ctx, c c20Case) {
 				}
 			}
 		case <-time.After(wire.Watchdog):
+			giveUp("c20order|" + c.Transfer)
 			lines, blocked := c20Blocked()
 			cancelShutdown()
 			if blocked {
@@ -401,6 +432,7 @@ func c20Order(ctx *core.Ctx, c c20Case) {
 	}
 	if !closed && shutdownDone == nil {
 		if !rig.Finish() {
+			giveUp("c20order|" + c.Transfer)
 			lines, blocked := c20Blocked()
 			if blocked {
 				fail("C20:handler-does-not-end", "the connection was closed by the peer but its handler does not end", lines)
@@ -411,6 +443,7 @@ func c20Order(ctx *core.Ctx, c c20Case) {
 		}
 	} else {
 		if _, ok := rig.WaitServe(); !ok {
+			giveUp("c20order|" + c.Transfer)
 			lines, blocked := c20Blocked()
 			if blocked {
 				fail("C20:serve-does-not-return", "Serve did not return after Close/Shutdown", lines)
@@ -421,6 +454,7 @@ func c20Order(ctx *core.Ctx, c c20Case) {
 		}
 	}
 	if !waitDataEnds(rig.Log) {
+		giveUp("c20order|" + c.Transfer)
 		lines, blocked := c20Blocked()
 		if blocked {
 			fail("C20:delivery-goroutine-stuck", "a backend delivery never ended although its connection is gone", lines)
@@ -518,7 +552,7 @@ func c20WaitConnClosed(l *rec.Log) {
 }
 
 func c20InCallback(ctx *core.Ctx, c c20Case) {
-	icClass := fmt.Sprintf("c20incallback|%s|%v", c.Callback, c.Direct)
+	icClass := "c20incallback" // one class: a lock held across a callback shows in the first case that hangs
 	if gaveUp(icClass) {
 		ctx.Add("cases_skipped_after_an_established_hang", 1)
 		return
@@ -540,16 +574,35 @@ func c20InCallback(ctx *core.Ctx, c c20Case) {
 			gate.Wait("cb")
 		})
 	}
-	rig.BE.H.NewSession = func(*smtp.Conn, int) error { hit("NewSession"); return nil }
-	rig.BE.H.Mail = func(int, string, *smtp.MailOptions) error { hit("Mail"); return nil }
-	rig.BE.H.Rcpt = func(int, string, *smtp.RcptOptions) error { hit("Rcpt"); return nil }
+	// every callback also asks the connection about itself, as backends do for logging and
+	// policy (remote address, TLS state, greeting name): no callback is made in a state in which
+	// these accessors block
+	query := func(cn *smtp.Conn, sess int) {
+		if cn == nil {
+			rig.BE.Lock()
+			cn = rig.BE.Conns[sess]
+			rig.BE.Unlock()
+		}
+		if cn != nil {
+			cn.TLSConnectionState()
+			if nc := cn.Conn(); nc != nil {
+				_ = nc.RemoteAddr()
+			}
+			_ = cn.Hostname()
+			_ = cn.Server()
+		}
+	}
+	rig.BE.H.NewSession = func(cn *smtp.Conn, sess int) error { query(cn, sess); hit("NewSession"); return nil }
+	rig.BE.H.Mail = func(sess int, _ string, _ *smtp.MailOptions) error { query(nil, sess); hit("Mail"); return nil }
+	rig.BE.H.Rcpt = func(sess int, _ string, _ *smtp.RcptOptions) error { query(nil, sess); hit("Rcpt"); return nil }
 	rig.BE.H.Data = func(sess int, r *rec.Reader, st smtp.StatusCollector) error {
+		query(nil, sess)
 		hit("Data")
 		r.ReadAll(32)
 		return nil
 	}
-	rig.BE.H.Reset = func(int) { hit("Reset") }
-	rig.BE.H.Logout = func(int) error { hit("Logout"); return nil }
+	rig.BE.H.Reset = func(sess int) { query(nil, sess); hit("Reset") }
+	rig.BE.H.Logout = func(sess int) error { query(nil, sess); hit("Logout"); return nil }
 	p := rig.Dial()
 	// the client keeps pipelining a whole session
 	p.SendStr("EHLO c.test\r\nMAIL FROM:<s@x.test>\r\nRCPT TO:<r@x.test>\r\nBDAT 3 LAST\r\nabcRSET\r\nMAIL FROM:<s2@x.test>\r\nRCPT TO:<r2@x.test>\r\nDATA\r\nbody\r\n.\r\nQUIT\r\n")
@@ -924,9 +977,16 @@ func c20Stalled(ctx *core.Ctx, c c20Case) {
 	cEnd, sEnd := memconn.Pipe(rig.Log)
 	cEnd.SetWatchdog(wire.Watchdog)
 	isTLS := strings.HasPrefix(c.Transfer, "tls")
-	if isTLS {
+	switch {
+	case c.Transfer == "accepted-at-close":
+		// the pending Accept hands this connection out at the very moment Close / Shutdown closes
+		// the listener: it must be dropped, or - by Shutdown - served to its end, but not left
+		// open behind a Close / Shutdown that has returned
+		rig.L.WaitAccepting()
+		rig.L.PushAtClose(sEnd)
+	case isTLS:
 		rig.L.Push(tls.Server(sEnd, wire.ServerTLS()))
-	} else {
+	default:
 		rig.L.Push(sEnd)
 	}
 	switch c.Transfer {
@@ -950,7 +1010,9 @@ func c20Stalled(ctx *core.Ctx, c c20Case) {
 		}
 	}
 	rig.L.WaitDrained()
-	if c.Transfer == "just-accepted" {
+	if c.Transfer == "accepted-at-close" {
+		// nothing to wait for: the connection does not exist for the server yet
+	} else if c.Transfer == "just-accepted" {
 		// Accept has just handed the connection out: its goroutine may not even have started
 		for i := 0; i < int(c.Seed%4)*3; i++ {
 			runtime.Gosched()
